@@ -74,7 +74,7 @@ out.append(rd('design/10_tiers.md'))
 # ---- section 11
 s11 = ['## 11. Validating the machinery: seeded changes and mutation trials\n',
        'Seeded changes were written by fresh sub-agents that were given only the text of one property and a scratch worktree of /repo (nothing from /verif). Each compiles, passes the pinned suite, and breaks the property only under specific conditions; each was confirmed by `tools/confirm_mutant.sh` (suite passes with the patch, demonstration fails with it and passes without) and then tried against the check with `VERIF_REPO=<worktree> bin/vcheck Cxx`. Where a check missed a change it was strengthened (generically, not for the one change) and re-run; both results are recorded. The authors of each property\'s check additionally tried their own list of mutations (section 8, "mutations").\n',
-       'Round 1 (60 changes, three per property) was followed by a second round (three more per property, written by fresh sub-agents that were told what round 1 had done and asked for different, subtler slips). The second round exposed many more blind spots of the generators than the first -- unusual but legal features (quoted units, dice with units, superscript exponents, base-prefixed dice, raw strings), multi-step histories on one context (caches, custom units defined late), sizes beyond a threshold (1024-byte strings, 16-term chains, 32 groups, integers of several digit groups), extreme values of a host input (random source 0 / u32::MAX, exponents around 2^32, non-UTF-8 paths). Every miss was answered by a generic extension of the generator or by new model coverage (never by special-casing the seeded input), after which the change was re-tried; the table gives the first-trial result and the follow-up. The authors of the seeded changes also reported defects of the unchanged tree they noticed on the way (comma-style unit definitions, the superscript exponent swallowing the next character); these were reproduced, repaired by `fix:` commits and are listed in section 9.\n',
+       'Round 1 (60 changes, three per property) was followed by a second round (three more per property, written by fresh sub-agents that were told what round 1 had done and asked for different, subtler slips). The second round exposed many more blind spots of the generators than the first -- unusual but legal features (quoted units, dice with units, superscript exponents, base-prefixed dice, raw strings), multi-step histories on one context (caches, custom units defined late), sizes beyond a threshold (1024-byte strings, 16-term chains, 32 groups, integers of several digit groups), extreme values of a host input (random source 0 / u32::MAX, exponents around 2^32, non-UTF-8 paths). Every miss was answered by a generic extension of the generator or by new model coverage (never by special-casing the seeded input), after which the change was re-tried; the table gives the first-trial result and the follow-up. The authors of the seeded changes also reported defects of the unchanged tree they noticed on the way (comma-style unit definitions, the superscript exponent swallowing the next character); these were reproduced, repaired by `fix:` commits and are listed in section 9. The follow-up work itself found further genuine defects of the unchanged tree (built-in constants lexed in the comma style: `e` = 2718281828459045235; a standard-library sort panic when printing a distribution with non-real outcomes, reached through a loaded image; equal non-real dice outcomes never merged; roots of scale-alias units over-marked as approximate), and running every thorough tier once at the end exposed one false alarm of a check (C17: strictly ascending printed labels demanded although distinct outcomes 5e-20 apart legitimately print alike), which was corrected as a false alarm, not listed as a finding. One seeded change (C15-r2m2) deletes functions that the `verif-hooks` accessors call: the hook build then fails and the check reports `check-infrastructure-failure ... no-failing-input-found` -- the property is no longer shown to hold -- while the behavioural part of the same change alone is reported with concrete failing inputs.\n',
        '| id | round | change | needs | result | caught by |', '|---|---|---|---|---|---|']
 for m in seeded:
     v = m.get('verified_by_integrator', {})
